@@ -204,6 +204,9 @@ def run_one(col, scratch, fid, n, active, kin, npk, mode, compression, previous,
         kw.update(filesystem="file", storage_options={}, engine_kwargs={})
     # the order a filesystem lists a directory in is its own business: three quarters of the cases run on an
     # instrumented local filesystem that answers `ls` reversed / oldest first / newest first
+    # ... and so is the spelling of the dataset path: a third of the cases name the directory with a trailing slash
+    slash = "/" if (n + 2 * kin + npk) % 3 == 0 else ""
+    case["path_spelling"] = "trailing_slash" if slash else "plain"
     order = LISTING_ORDERS[(n + kin + npk + fid) % 4]
     case["listing"] = order
     fs_read = None
@@ -221,7 +224,7 @@ def run_one(col, scratch, fid, n, active, kin, npk, mode, compression, previous,
                 prev.pack_partitions_to_parquet(path, npartitions=(12 if previous == "larger" else 1), p=p, _retry_args=RETRY)
             kw["overwrite"] = True
         col.count("evaluations")
-        ret = ddf.pack_partitions_to_parquet(path, **kw)
+        ret = ddf.pack_partitions_to_parquet(path + slash, **kw)
         ret_comp = ret.compute(scheduler="synchronous")
         ret_parts = ret.npartitions
     except Exception as ex:
@@ -252,7 +255,7 @@ def run_one(col, scratch, fid, n, active, kin, npk, mode, compression, previous,
     want = sorted(rows_of(P0), key=repr)
     tb = P0[active].total_bounds
     try:
-        indep = read_parquet_dask(path) if fs_read is None else read_parquet_dask(path, filesystem=fs_read)
+        indep = read_parquet_dask(path + slash) if fs_read is None else read_parquet_dask(path + slash, filesystem=fs_read)
         indep_parts = [d.compute(scheduler="synchronous") for d in indep.to_delayed()]
         indep_comp = indep.compute(scheduler="synchronous")
     except Exception as ex:
